@@ -217,7 +217,25 @@ func init() {
 		return TupleV{a[0], &ClosureV{Native: "cancel"}}, false
 	}
 	stubs["context.WithCancel"] = func(w *Worker, s *State, f *Frame, fn *ssa.Function, a []Value, d int) (Value, bool) {
-		return TupleV{a[0], &ClosureV{Native: "cancel"}}, false
+		// a cancellable context owns a "done" channel that cancel() closes (parent cancellation is
+		// not propagated: the harnesses derive from Background)
+		o := s.newObj("chan", nil)
+		s.nOpaque++
+		t := fn.Signature.Results().At(0).Type()
+		ctx := IfaceV{T: t, V: OpaqueV{T: t, ID: s.nOpaque, Tag: "context", X: ChanV{o}}}
+		return TupleV{ctx, &ClosureV{Native: "cancel", Bind: []Value{ChanV{o}}}}, false
+	}
+	opaqueHandlers["context.Done"] = func(w *Worker, s *State, op OpaqueV, args []Value) Value {
+		if ch, ok := op.X.(ChanV); ok {
+			return ch
+		}
+		return ChanV{}
+	}
+	opaqueHandlers["context.Err"] = func(w *Worker, s *State, op OpaqueV, args []Value) Value {
+		if ch, ok := op.X.(ChanV); ok && ch.O != nil && ch.O.Closed {
+			return w.newError(s, w.tc.Str("context canceled"))
+		}
+		return IfaceV{}
 	}
 	stubs["strconv.ParseUint"] = func(w *Worker, s *State, f *Frame, fn *ssa.Function, a []Value, d int) (Value, bool) {
 		str := w.concStr(a[0], "ParseUint input")
@@ -241,7 +259,14 @@ func init() {
 		}
 		return w.tc.UF("statustext", sortStr, t), false
 	}
-	nativeClosures["cancel"] = func(w *Worker, s *State, args []Value) Value { return nil }
+	nativeClosures["cancel"] = func(w *Worker, s *State, args []Value) Value {
+		if len(args) > 0 {
+			if ch, ok := args[0].(ChanV); ok && ch.O != nil {
+				ch.O.Closed = true
+			}
+		}
+		return nil
+	}
 }
 
 var nativeClosures = map[string]func(w *Worker, s *State, args []Value) Value{}
